@@ -30,7 +30,7 @@ func init() {
 		NonTrivial: nonTrivial,
 		Rule: "one codec (octal/hex/unicode/utf16) per case; ops format/formatstr/roundtrip on random bytes or UTF-8 " +
 			"(all four length classes, surrogate boundary, invalid bytes), parse/parsestr/parsebytes on reference-formatted " +
-			"output, on well-formed escapes embedded in text, and on every prefix of a malformed token stream; large stream (tag large): inputs of 1 KB-64 KB (thorough -256 KB) at sizes 1023..65537 around 1024/4096/8192/65536, long escape runs, an escape straddling offset 4096/65536/end, long malformed streams, Format of up to 64 KB incl. supplementary-rune runs that outgrow Utf16Format's capacity, parsen with dst = len, len+1 (len-1 up to 4 KB); " +
+			"output, on well-formed escapes embedded in text, and on every prefix of a malformed token stream; layout stream (tag layout): the same input parsed in place (dst == src), with dst starting k = 1..13, 64, len, len+1 bytes before src in one array, and with dst a window behind src in src's arena, canaries around every window, result compared with the two-buffer result; results ledger: every returned string/[]byte of a case is kept with an independent copy and re-compared after every later call; large stream (tag large): inputs of 1 KB-64 KB (thorough -256 KB) at sizes 1023..65537 around 1024/4096/8192/65536, long escape runs, an escape straddling offset 4096/65536/end, long malformed streams, Format of up to 64 KB incl. supplementary-rune runs that outgrow Utf16Format's capacity, parsen with dst = len, len+1 (len-1 up to 4 KB); " +
 			"non-trivial = at least one Format of non-empty input or one Parse whose input contains a backslash; distinct by hash of the op list",
 		Classify: classify,
 		Parallel: true,
@@ -92,8 +92,67 @@ func unhx(s string) ([]byte, bool) {
 
 // ---------------------------------------------------------------- implementation
 
+// ledger: every result returned by the library in this case, kept as the returned value
+// itself (string / []byte sharing whatever memory the library gave out) together with an
+// independent copy; re-compared after every later call (results ledger, WAVE4 class 2).
+type ledger struct {
+	strs  []string
+	bytes [][]byte
+	cps   [][]byte
+	cpb   [][]byte
+}
+
+func (l *ledger) addS(s string) string {
+	l.strs = append(l.strs, s)
+	l.cps = append(l.cps, []byte(strings.Clone(s)))
+	return s
+}
+
+func (l *ledger) addB(b []byte) []byte {
+	l.bytes = append(l.bytes, b)
+	l.cpb = append(l.cpb, append([]byte{}, b...))
+	return b
+}
+
+// changed reports the index of an earlier result that no longer equals its copy.
+func (l *ledger) changed() int {
+	for i, s := range l.strs {
+		if s != string(l.cps[i]) {
+			return i
+		}
+	}
+	for i, b := range l.bytes {
+		if !bytes.Equal(b, l.cpb[i]) {
+			return len(l.strs) + i
+		}
+	}
+	return -1
+}
+
+const canaryLen = 24
+
+// arena lays out windows in one allocation, canaries (0xC5) before, between and behind.
+func newArena(n int) []byte {
+	a := make([]byte, n)
+	for i := range a {
+		a[i] = 0xC5
+	}
+	return a
+}
+
+func canaryOK(b []byte) bool {
+	for _, c := range b {
+		if c != 0xC5 {
+			return false
+		}
+	}
+	return true
+}
+
 func impl(c core.Case) []string {
 	var f *codecFns
+	led := &ledger{}
+	step := implStep(&f, led)
 	return core.RunOps(c,
 		func(hdr []string) string {
 			if len(hdr) != 1 {
@@ -106,6 +165,20 @@ func impl(c core.Case) []string {
 			return "ok"
 		},
 		func(t []string) string {
+			o := step(t)
+			if o != "panic" && o != "bad-op" {
+				if j := led.changed(); j >= 0 {
+					return fmt.Sprintf("ledger-changed %d", j) // an EARLIER result changed during this call
+				}
+			}
+			return o
+		})
+}
+
+func implStep(fp **codecFns, led *ledger) func(t []string) string {
+	return (
+		func(t []string) string {
+			f := *fp
 			if len(t) < 2 {
 				return "bad-op"
 			}
@@ -117,14 +190,14 @@ func impl(c core.Case) []string {
 			var out string
 			switch {
 			case t[0] == "format" && len(t) == 2:
-				o := f.format(in)
-				if o2 := f.formatS(string(in)); !bytes.Equal(o, o2) {
+				o := led.addB(f.format(in))
+				if o2 := led.addB(f.formatS(string(in))); !bytes.Equal(o, o2) {
 					return "form-mismatch" // XxxFormat[[]byte] and XxxFormat[string] disagree
 				}
 				out = hx(o)
 			case t[0] == "formatstr" && len(t) == 2:
-				o := f.formatStr(string(in))
-				if o2 := f.formatStrB(in); o != o2 {
+				o := led.addS(f.formatStr(string(in)))
+				if o2 := led.addS(f.formatStrB(in)); o != o2 {
 					return "form-mismatch" // XxxFormatToString[string] and [[]byte] disagree
 				}
 				out = hx([]byte(o))
@@ -150,11 +223,66 @@ func impl(c core.Case) []string {
 				}
 				out = fmt.Sprintf("%d %s", k, hx(dst[:k]))
 			case t[0] == "parsestr" && len(t) == 2:
-				out = hx([]byte(f.parseStr(string(in))))
+				out = hx([]byte(led.addS(f.parseStr(string(in)))))
 			case t[0] == "parsebytes" && len(t) == 2:
-				out = hx([]byte(f.parseBytes(in)))
+				out = hx([]byte(led.addS(f.parseBytes(in))))
 			case t[0] == "roundtrip" && len(t) == 2:
-				out = hx([]byte(f.parseStr(f.formatStr(string(in)))))
+				out = hx([]byte(led.addS(f.parseStr(led.addS(f.formatStr(string(in)))))))
+			case t[0] == "parseip" && len(t) == 4:
+				// ONE memory: dst = arena[c+0 : c+dl], src = arena[c+k : c+k+len], canaries around
+				k, e1 := strconv.Atoi(t[2])
+				dl, e2 := strconv.Atoi(t[3])
+				if e1 != nil || e2 != nil || k < 0 || k > 65536 || dl < len(in) {
+					return "bad-op"
+				}
+				span := k + len(in)
+				if dl > span {
+					span = dl
+				}
+				a := newArena(canaryLen + span + canaryLen)
+				src := a[canaryLen+k : canaryLen+k+len(in) : canaryLen+k+len(in)]
+				copy(src, in)
+				dst := a[canaryLen : canaryLen+dl : canaryLen+dl]
+				n := f.parse(dst, src)
+				if !canaryOK(a[:canaryLen]) || !canaryOK(a[canaryLen+span:]) {
+					return "canary" // wrote outside dst
+				}
+				got := append([]byte{}, dst[:n]...)
+				// the same input parsed into a separate buffer
+				fresh := make([]byte, len(in))
+				m := f.parse(fresh, in)
+				if n != m || !bytes.Equal(got, fresh[:m]) {
+					return fmt.Sprintf("inplace-differs %d %s", m, hx(fresh[:m]))
+				}
+				out = fmt.Sprintf("%d %s", n, hx(got))
+			case t[0] == "parsew" && len(t) == 4:
+				// dst is a window of src's arena BEHIND src, `gap` bytes apart; canaries everywhere else
+				dl, e1 := strconv.Atoi(t[2])
+				gap, e2 := strconv.Atoi(t[3])
+				if e1 != nil || e2 != nil || dl < 0 || gap < 0 || gap > 4096 {
+					return "bad-op"
+				}
+				a := newArena(canaryLen + len(in) + gap + dl + canaryLen)
+				src := a[canaryLen : canaryLen+len(in) : canaryLen+len(in)]
+				copy(src, in)
+				d0 := canaryLen + len(in) + gap
+				dst := a[d0 : d0+dl : d0+dl]
+				for i := range dst {
+					dst[i] = 0
+				}
+				n := f.parse(dst, src)
+				if !canaryOK(a[:canaryLen]) || !canaryOK(a[canaryLen+len(in):d0]) || !canaryOK(a[d0+dl:]) {
+					return "canary"
+				}
+				if !bytes.Equal(src, in) {
+					return "input-modified"
+				}
+				for _, b := range dst[n:] {
+					if b != 0 {
+						return "overrun"
+					}
+				}
+				out = fmt.Sprintf("%d %s", n, hx(dst[:n]))
 			default:
 				return "bad-op"
 			}
@@ -337,6 +465,15 @@ func check(c core.Case, out []string) *core.Failure {
 		if out[i] == "input-modified" {
 			return fail("input-modified", "the call wrote into its input")
 		}
+		if strings.HasPrefix(out[i], "ledger-changed") {
+			return fail("result-changed", "a result returned by an EARLIER call of this case changed during this call (results must not share memory with later calls)")
+		}
+		if out[i] == "canary" {
+			return fail("canary", "the call wrote outside its dst window")
+		}
+		if strings.HasPrefix(out[i], "inplace-differs") {
+			return fail("inplace-differs", "parsing with dst and src in one array (dst starting %s bytes before src) differs from parsing into a fresh buffer: fresh = %s", t[2], strings.TrimPrefix(out[i], "inplace-differs "))
+		}
 		if out[i] == "form-mismatch" {
 			return fail("form-mismatch", "the []byte and the string instantiation of the generic function return different results")
 		}
@@ -371,7 +508,7 @@ func check(c core.Case, out []string) *core.Failure {
 			if !bytes.Equal(got, want) {
 				return fail("roundtrip", "Parse(Format(%x)) = %x, want %x", in, got, want)
 			}
-		case "parse", "parsestr", "parsebytes", "parsen":
+		case "parse", "parsestr", "parsebytes", "parsen", "parseip", "parsew":
 			dstlen := len(in)
 			if out[i] == "overrun" {
 				return fail("parse-overrun", "wrote into dst behind the returned length")
@@ -382,6 +519,9 @@ func check(c core.Case, out []string) *core.Failure {
 				}
 				dstlen, _ = strconv.Atoi(t[2])
 			}
+			if t[0] == "parsew" && len(t) == 4 {
+				dstlen, _ = strconv.Atoi(t[2])
+			}
 			if dstlen < len(in) {
 				continue // dst shorter than src is outside the contract; only the correspondence looks at it
 			}
@@ -389,7 +529,7 @@ func check(c core.Case, out []string) *core.Failure {
 				return fail("parse-panic", "Parse panicked on %q", in)
 			}
 			var got []byte
-			if t[0] == "parsen" {
+			if t[0] == "parsen" || t[0] == "parseip" || t[0] == "parsew" {
 				f := strings.Fields(out[i])
 				if len(f) != 2 {
 					return fail("parse-output", "unexpected output")
@@ -505,7 +645,17 @@ func classify(c core.Case, out []string) []string {
 			} else if len(in) > 0 {
 				add("fmt-bytes")
 			}
-		case "parse", "parsestr", "parsebytes", "parsen":
+		case "parse", "parsestr", "parsebytes", "parsen", "parseip", "parsew":
+			if t[0] == "parseip" && len(t) == 4 {
+				if t[2] == "0" {
+					add("layout-in-place")
+				} else {
+					add("layout-dst-before-src-overlapping")
+				}
+			}
+			if t[0] == "parsew" {
+				add("layout-dst-window-behind-src")
+			}
 			if len(in) >= 1024 {
 				add("large-parse")
 				for _, th := range []int{4096, 65536} {
@@ -533,7 +683,7 @@ func classify(c core.Case, out []string) []string {
 				continue
 			}
 			var got []byte
-			if t[0] == "parse" || t[0] == "parsen" {
+			if t[0] == "parse" || t[0] == "parsen" || t[0] == "parseip" || t[0] == "parsew" {
 				f := strings.Fields(out[i])
 				if len(f) == 2 {
 					n, _ := strconv.Atoi(f[0])
@@ -780,7 +930,11 @@ func genLarge(r *core.Rand, k, tier string) core.Case {
 		s = s[:size]
 	}
 	h := hx(s)
-	switch r.Pick(2, 2, 3) {
+	switch r.Pick(2, 2, 3, 3) {
+	case 3: // destination layouts on a large input, then further calls while the long results are watched
+		lines = append(lines, "parsestr "+h)
+		lines = append(lines, layoutOps(r, s)...)
+		lines = append(lines, "formatstr "+hx(randData(r, k, 400)), "parsestr "+hx(lowerHex(r, k, refFormat(k, randData(r, k, 300)))))
 	case 0:
 		lines = append(lines, "parsestr "+h)
 	case 1:
@@ -794,6 +948,52 @@ func genLarge(r *core.Rand, k, tier string) core.Case {
 	return core.Case{Lines: lines, Tag: "large"}
 }
 
+// layoutOps: one parse input under every destination layout (WAVE4 class 6): in place, dst
+// starting k bytes before src in the same array, dst a window behind src in src's arena.
+func layoutOps(r *core.Rand, s []byte) []string {
+	h := hx(s)
+	n := len(s)
+	ks := []int{0, 0, 1, 2, 3, 4, 5, 6, 7, 9, 10, 11, 12, 13, 64, n, n + 1}
+	k := ks[r.Intn(len(ks))]
+	dl := []int{n, n + k, n + 1}[r.Intn(3)]
+	ops := []string{fmt.Sprintf("parseip %s 0 %d", h, n), fmt.Sprintf("parseip %s %d %d", h, k, dl)}
+	if r.Bool() {
+		ops = append(ops, fmt.Sprintf("parsew %s %d %d", h, n+r.Intn(2), []int{0, 1, 7, 64}[r.Intn(4)]))
+	}
+	return ops
+}
+
+func genLayout(r *core.Rand, k string) core.Case {
+	lines := []string{header(k)}
+	for j := r.Range(1, 3); j > 0; j-- {
+		var s []byte
+		switch r.Pick(3, 4, 3) {
+		case 0: // formatted output (every escape decodes: the write cursor falls far behind)
+			s = lowerHex(r, k, refFormat(k, randData(r, k, 12)))
+		case 1: // escapes between literal runs: pending text is moved down after an earlier escape
+			for p := r.Range(1, 5); p > 0; p-- {
+				s = append(s, randLiteral(r)...)
+				s = append(s, lowerHex(r, k, refFormat(k, randData(r, k, 2)))...)
+			}
+			s = append(s, randLiteral(r)...)
+		default: // malformed tokens mixed with text
+			toks := malformedTokens(k)
+			for p := r.Range(1, 8); p > 0; p-- {
+				if r.Chance(30) {
+					s = append(s, randLiteral(r)...)
+				} else {
+					s = append(s, toks[r.Intn(len(toks))]...)
+				}
+			}
+		}
+		lines = append(lines, layoutOps(r, s)...)
+		if r.Chance(40) { // something for the results ledger to watch
+			lines = append(lines, "parsestr "+hx(s), "formatstr "+hx(randData(r, k, 8)))
+		}
+	}
+	return core.Case{Lines: lines, Tag: "layout"}
+}
+
 func gen(r *core.Rand, tier string) core.Case {
 	k := codecs[r.Intn(4)]
 	// large stream: ~0.6 % of the cases (a few hundred in quick), 2 % in thorough
@@ -801,6 +1001,9 @@ func gen(r *core.Rand, tier string) core.Case {
 		return genLarge(r, k, tier)
 	}
 	lines := []string{header(k)}
+	if r.Chance(12) {
+		return genLayout(r, k)
+	}
 	switch r.Pick(22, 22, 16, 32, 8) {
 	case 0: // (i) Format of random data
 		n := r.Range(1, 4)
@@ -904,7 +1107,21 @@ func corpus() []core.Case {
 		}
 		return hx(b)
 	}()
+	ip := func(k string, texts ...string) core.Case {
+		var ops []string
+		for _, t := range texts {
+			n := len(t)
+			ops = append(ops, fmt.Sprintf("parseip %s 0 %d", h(t), n), fmt.Sprintf("parseip %s 3 %d", h(t), n+3),
+				fmt.Sprintf("parseip %s 1 %d", h(t), n), fmt.Sprintf("parsew %s %d 0", h(t), n))
+		}
+		return mk(k, ops...)
+	}
 	return []core.Case{
+		// in place (as strz/enc_test.go TestOctalParse does) and overlapping layouts: escape, text, escape
+		ip("octal", "\\101hello\\102", "ab\\101cd\\102\\103ef", "\\101\\1\\102xyz\\103"),
+		ip("hex", "\\x41hello\\x42", "ab\\x41cd\\x42\\x43ef", "\\x41\\x4\\x42xyz\\x43"),
+		ip("unicode", "\\U00000041hello\\U0001F600", "ab\\U000000e9cd\\U00110000\\U00000042ef"),
+		ip("utf16", "\\u0041hello\\uD83D\\uDE00", "ab\\uD83Dcd\\uD83D\\uDE00\\u0042ef\\uD800"),
 		mk("octal", "format "+all, "roundtrip "+all, "formatstr -", "parsestr -", "parsestr "+h("\\101"), "parsestr "+h("\\10"), "parsestr "+h("\\777"),
 			"parsestr "+h("\\400"), "parsestr "+h("\\377"), "parsestr "+h("ab\\101cd"), "parsestr "+h("\\1\\101"), "parsestr "+h("\\\\\\\\101"), "parse "+h("\\101\\102")+" 8", "parse "+h("abc\\101")+" 3"),
 		mk("hex", "format "+all, "roundtrip "+all, "parsestr "+h("\\x41"), "parsestr "+h("\\xfF"), "parsestr "+h("\\x4"), "parsestr "+h("\\xg1"), "parsestr "+h("\\x1g"),
